@@ -285,6 +285,15 @@ def gen_case(rng, direction, opts=None):
                 # ... and one in the source at the very path of a destination-only file: the source has no FILE
                 # there, so with --delete the stale destination file still goes
                 extras.append(("src", r2.pick(gone), r2.pick(["emptydir", "fifo", "dangling", "loop"])))
+        # a link that does not resolve, at the destination, at the very path where a source FILE is about to be delivered
+        # (a dangling `current -> releases/42`): delivery replaces the link; whoever writes THROUGH it creates its target
+        # - in the destination, or, with a target that climbs out, in the source tree
+        r5 = SplitMix.derive(r2.s, "dangling-at-planned", 0)
+        planned_absent = sorted(p for p, st in states.items() if st == "absent" and p in src and p not in dst and "\n" not in p)
+        if opts.get("extras", True) and planned_absent and r5.chance(1, 6):
+            victim = r5.pick(planned_absent)
+            up = "../" * victim.count("/")
+            extras.append(("dst", victim, r5.pick(["dangling:ghost-target", "dangling:sub/ghost-target", "dangling:" + up + "../" + case["srcname"] + "/ghost-in-source"])))
         case["extras"] = extras
         case["dst_symlink"] = r2.chance(1, 8)
         case["src_symlink"] = r2.chance(1, 8)
@@ -359,7 +368,9 @@ class OneWay:
             full = os.path.join(self.src if side == "src" else self.dst, p)
             try:
                 os.makedirs(os.path.dirname(full), exist_ok=True)
-                if kind == "dangling":
+                if kind.startswith("dangling:"):
+                    os.symlink(kind.split(":", 1)[1], full)
+                elif kind == "dangling":
                     os.symlink("no-such-target", full)
                 elif kind == "loop":
                     os.symlink(os.path.basename(full), full)
